@@ -33,7 +33,7 @@ ASSUMPTIONS = ["decided against an in-process communicator double; real mpi4py/l
                "trajectory i is owned by rank i % size and local data are the owned trajectories concatenated in order "
                "(the layout enspara.mpi.io produces)",
                "at least as many trajectories as ranks (the library rejects fewer)",
-               "cold-start k-medoids in a world of size > 1 is not asserted (see DESIGN.md)"]
+               "cold-start k-medoids in a world of size > 1 is a recorded known finding (it raises before clustering)"]
 SHARDS = {"quick": 4, "thorough": 16}
 
 
@@ -495,6 +495,46 @@ def run_io(c):
     return Info(nt, classes(c, w, ["io=" + c["kind"], "stride=%d" % stride]))
 
 
+# ---------------------------------------------------------------------------
+# F. cold-started distributed k-medoids (the cluster app's KMedoids path under MPI without restart files)
+
+def run_cold_kmedoids(c):
+    X, trajs = make_data(c)
+    lengths = np.array(c["lengths"], dtype=int)
+    metric = c["metric"]
+    size = c["size"]
+    if size == 1:
+        raise Skip()
+
+    def fn(rank):
+        loc = local_of(trajs, rank, size).copy()
+        r = km.kmedoids(loc, metric, n_clusters=c["k"], n_iters=c["n_iters"],
+                        random_state=np.random.RandomState(c["seed"]))
+        d = ops.assemble_striped_ragged_array(r.distances, lengths)
+        a = ops.assemble_striped_ragged_array(r.assignments, lengths)
+        ci = ops.convert_local_indices(r.center_indices, lengths)
+        return [int(x) for x in ci], np.asarray(d), np.asarray(a), [np.asarray(x) for x in r.centers]
+
+    res, w = run(c, fn)
+    ci0, d0, a0, ctr0 = res[0]
+    for rank, (ci, d, a, ctrs) in enumerate(res):
+        require(ci == ci0 and np.array_equal(d, d0) and np.array_equal(a, a0), "ranks disagree on cold-start k-medoids",
+                rank=rank)
+        require(len(ci) == c["k"], "cold-start distributed k-medoids returned a different number of clusters", rank=rank)
+        check_invariants(metric, X, ci, a, d, ctrs, "cold-start distributed k-medoids", rank)
+    return Info(len(set(c["lengths"])) > 1, classes(c, w))
+
+
+def m_cold_kmedoids_mpi(case, exc):
+    """kmedoids() without a warm start in a world of more than one rank dies inside its input handling
+    (_kmedoids_inputs_tree_mpi: np.arange(X) on the data array, then None.append) before any clustering."""
+    import traceback
+    if case.get("size", 1) <= 1 or not isinstance(exc, (TypeError, AttributeError, ValueError)):
+        return False
+    frames = [f.name for f in traceback.extract_tb(exc.__traceback__) if "/enspara/" in f.filename]
+    return bool(frames) and frames[-1] == "_kmedoids_inputs_tree_mpi"
+
+
 CLAUSES = [
     Clause("kcenters_equals_serial", kcenters_case(), run_kcenters, quick=220, thorough=4000),
     Clause("hybrid_invariants", hybrid_case(), run_hybrid, quick=120, thorough=2500),
@@ -502,6 +542,7 @@ CLAUSES = [
     Clause("striped_ops", ops_case(), run_ops, quick=200, thorough=4000),
     Clause("randind", ops_case(), run_randind, quick=80, thorough=1500),
     Clause("striped_io", io_case(), run_io, quick=80, thorough=1500),
+    Clause("cold_kmedoids", hybrid_case(), run_cold_kmedoids, quick=40, thorough=400),
     Clause("kcenters_big_world", kcenters_case(max_size=9, max_traj=14), run_kcenters, quick=0, thorough=1500),
 ]
-MATCHERS = {}
+MATCHERS = {"cold_kmedoids_mpi": m_cold_kmedoids_mpi}
